@@ -435,36 +435,101 @@ def entry_kind(ex, st, c):
     return SV(_rec(ex, st, c, 'ChildEntry', 'kind'), STR)
 
 
+def _kids(ex, st, ref):
+    kids = _rec(ex, st, ref, 'RefStruct', 'children')
+    if getattr(ex, 'spec_facts', None) is not None:
+        # typing of the locations read (heap invariants): the reference and its children tuple are live objects
+        ex.spec_facts.extend(ex.type_facts(st, ex.term(ref, 'R'), ObjT('RefStruct')))
+        ex.spec_facts.extend(ex.type_facts(st, kids, TupleVar(ObjT('ChildEntry'))))
+    return ex.H(st, 'La.R')[kids], ex.H(st, 'Ll')[kids]
+
+
+def _fact(ex, f):
+    if getattr(ex, 'spec_facts', None) is not None:
+        ex.spec_facts.append(f)
+
+
+@specfunc('n_children')
+def n_children(ex, st, ref):
+    return SV(_kids(ex, st, ref)[1], INT)
+
+
+@specfunc('child_entry')
+def child_entry(ex, st, ref, j):
+    """the j-th (name, reference, cardinality, kind) entry of a structure reference"""
+    return SV(_kids(ex, st, ref)[0][ex.term(j, 'I')], ObjT('ChildEntry'))
+
+
+@specfunc('entry_ref')
+def entry_ref(ex, st, c):
+    return SV(_rec(ex, st, c, 'ChildEntry', 'ref'), Opt(ObjT('RefStruct')))
+
+
 @specfunc('is_child_entry')
 def is_child_entry(ex, st, ref, c):
-    kids = _rec(ex, st, ref, 'RefStruct', 'children')
-    j = z3.FreshConst(IntS, 'ce')
-    return SV(z3.Exists([j], z3.And(0 <= j, j < ex.H(st, 'Ll')[kids], ex.H(st, 'La.R')[kids][j] == ex.term(c, 'R'))), BOOL)
+    """membership of the entry object c in ref's children, existential-free: pos is a witness function (for a
+    member it returns an index holding it - the closed fact below; for a non-member no index can satisfy the test)"""
+    arr, n = _kids(ex, st, ref)
+    pos = ex.uf('entry_pos', z3.ArraySort(IntS, IntS), IntS, IntS, IntS)
+    k = z3.FreshConst(IntS, 'ek')
+    w = pos(arr, n, arr[k])
+    _fact(ex, z3.ForAll([k], z3.Implies(z3.And(0 <= k, k < n), z3.And(0 <= w, w < n, arr[w] == arr[k])), patterns=[arr[k]]))
+    ct = ex.term(c, 'R')
+    wc = pos(arr, n, ct)
+    return SV(z3.And(0 <= wc, wc < n, arr[wc] == ct), BOOL)
 
 
-@specfunc('declares_seg')
-def declares_seg(ex, st, ref, name, r):
-    kids = _rec(ex, st, ref, 'RefStruct', 'children')
-    j = z3.FreshConst(IntS, 'ds')
-    c = ex.H(st, 'La.R')[kids][j]
-    return SV(z3.Exists([j], z3.And(0 <= j, j < ex.H(st, 'Ll')[kids],
-                                    ex.H(st, 'f.ChildEntry.kind')[c] == z3.StringVal('SEG'),
-                                    ex.H(st, 'f.ChildEntry.name')[c] == ex.term(name, 'S'),
-                                    ex.H(st, 'f.ChildEntry.ref')[c] == ex.term(r, 'R'))), BOOL)
+@specfunc('seg_idx')
+def seg_idx(ex, st, ref, name):
+    """index of the first SEG entry called `name` among ref's children, or -1 (defining facts added as hypotheses)"""
+    arr, n = _kids(ex, st, ref)
+    kind = ex.H(st, 'f.ChildEntry.kind')
+    nm = ex.H(st, 'f.ChildEntry.name')
+    nt = ex.term(name, 'S')
+    f = ex.uf('seg_idx', z3.ArraySort(IntS, IntS), IntS, kind.sort(), nm.sort(), StrS, IntS)
+    p = f(arr, n, kind, nm, nt)
+    k = z3.FreshConst(IntS, 'sk')
+    hit = lambda j: z3.And(kind[arr[j]] == z3.StringVal('SEG'), nm[arr[j]] == nt)
+    _fact(ex, z3.And(p >= -1, z3.Or(p == -1, p < n)))
+    _fact(ex, z3.Implies(p >= 0, hit(p)))
+    _fact(ex, z3.ForAll([k], z3.Implies(z3.And(0 <= k, k < n, z3.Or(p == -1, k < p)), z3.Not(hit(k))), patterns=[arr[k]]))
+    return SV(p, INT)
+
+
+@specfunc('declares_grp_entry')
+def declares_grp_entry(ex, st, ref, c):
+    """declares_grp for the (name, reference) pair of the child-entry object c (used in the loop invariant: the pair
+    pushed on the stack is built from such an entry)"""
+    return _declares_grp(ex, st, ref, None, c)
 
 
 @specfunc('declares_grp')
 def declares_grp(ex, st, ref, entry):
-    """the stack entry (name, reference) is a declared GRP child of ref"""
-    kids = _rec(ex, st, ref, 'RefStruct', 'children')
-    j = z3.FreshConst(IntS, 'dg')
-    c = ex.H(st, 'La.R')[kids][j]
-    e = ex.term(entry, 'R')
-    arr = ex.H(st, 'La.V')[e]
-    return SV(z3.Exists([j], z3.And(0 <= j, j < ex.H(st, 'Ll')[kids],
-                                    ex.H(st, 'f.ChildEntry.kind')[c] == z3.StringVal('GRP'),
-                                    Val.VStr(ex.H(st, 'f.ChildEntry.name')[c]) == arr[0],
-                                    Val.VRef(ex.H(st, 'f.ChildEntry.ref')[c]) == arr[1])), BOOL)
+    return _declares_grp(ex, st, ref, entry, None)
+
+
+def _declares_grp(ex, st, ref, entry, centry):
+    """the stack entry (name, reference) restates a GRP child of ref, existential-free: grp_wit is a witness function.
+    Defining fact (ground, added where an entry object is at hand): for a GRP member c of ref's children,
+    grp_wit(..., name(c), ref(c)) is an index of a GRP child with that name and reference (c's own index is one)."""
+    kind = ex.H(st, 'f.ChildEntry.kind')
+    nm = ex.H(st, 'f.ChildEntry.name')
+    rf = ex.H(st, 'f.ChildEntry.ref')
+    wit = ex.uf('grp_wit', z3.ArraySort(IntS, IntS), IntS, kind.sort(), nm.sort(), rf.sort(), Val, Val, IntS)
+
+    def pred(arr, n, e0, e1):
+        w = wit(arr, n, kind, nm, rf, e0, e1)
+        return z3.And(0 <= w, w < n, kind[arr[w]] == z3.StringVal('GRP'), Val.VStr(nm[arr[w]]) == e0, Val.VRef(rf[arr[w]]) == e1)
+    arr, n = _kids(ex, st, ref)
+    if centry is not None:
+        ct = ex.term(centry, 'R')
+        pos = ex.uf('entry_pos', z3.ArraySort(IntS, IntS), IntS, IntS, IntS)
+        W = pos(arr, n, ct)
+        p = pred(arr, n, Val.VStr(nm[ct]), Val.VRef(rf[ct]))
+        _fact(ex, z3.Implies(z3.And(0 <= W, W < n, arr[W] == ct, kind[ct] == z3.StringVal('GRP')), p))
+        return SV(p, BOOL)
+    e = ex.H(st, 'La.V')[ex.term(entry, 'R')]
+    return SV(pred(arr, n, e[0], e[1]), BOOL)
 
 
 @specfunc('nonempty')
